@@ -23,9 +23,9 @@ func init() {
 		Level: "fault_enumeration",
 		Cases: func(t string) int {
 			if t == "thorough" {
-				return 16000
+				return 24000
 			}
-			return 900
+			return 1800
 		},
 		Batch: func(t string) int { return 45 },
 		Floors: []string{"faults_injected", "fault_single_bit", "fault_burst", "page_dictionary", "page_data_v1", "page_data_v2", "path_rows_sequential", "path_generic_reader", "path_pages_sequential", "path_pages_seek_into_page",
